@@ -314,6 +314,33 @@ fn base_frames(ctx: &Ctx) -> Vec<Base> {
     for (a, t, d) in picks {
         v.push(Base { addr: a, ty: t, data: d.to_vec() });
     }
+    // every state report, every acknowledgement and every request of the protocol for one address: their codes are
+    // neighbours (0x10 page loaded, 0x11 show in progress, 0x12 shown, 0x13 load in progress, ...), so a decoder that is
+    // lenient about these frames turns one into another
+    for s in refs::STATES.iter() {
+        v.push(Base { addr: 0x0003, ty: 0x04, data: vec![s.1] });
+    }
+    for o in refs::OPS.iter() {
+        v.push(Base { addr: 0x0003, ty: 0x03, data: vec![o.1] });
+        v.push(Base { addr: 0x0003, ty: 0x05, data: vec![o.2] });
+    }
+    // frames whose true checksum is 00, 01, FF, 0D, 0A and 3A (a decoder that gives one of these a special meaning),
+    // for several lengths: the first data byte (or the type) is chosen to make the sum come out
+    for want in [0x00u8, 0x01, 0xFF, 0x0D, 0x0A, 0x3A] {
+        for len in [0usize, 1, 2, 5, 16] {
+            let mut data: Vec<u8> = (0..len).map(|i| (i as u8).wrapping_mul(29).wrapping_add(7)).collect();
+            let addr = 0x00ECu16.wrapping_add(len as u16);
+            let mut ty = 0x04u8;
+            let sum = |ty: u8, data: &[u8]| data.iter().fold((len as u8).wrapping_add((addr >> 8) as u8).wrapping_add(addr as u8).wrapping_add(ty), |a, b| a.wrapping_add(*b));
+            let adjust = want.wrapping_neg().wrapping_sub(sum(ty, &data));
+            if len == 0 { ty = ty.wrapping_add(adjust) } else { data[0] = data[0].wrapping_add(adjust) }
+            v.push(Base { addr, ty, data });
+        }
+    }
+    // constant payloads (blank and full columns) whose digits re-pair to the same bytes when one is dropped
+    for (fill, len) in [(0x00u8, 4usize), (0xFF, 4), (0x11, 3), (0x7F, 6), (0x01, 2), (0x10, 2)] {
+        v.push(Base { addr: 0x0010, ty: 0x00, data: vec![fill; len] });
+    }
     let lens: &[usize] = &[0, 1, 2, 3, 4, 5, 6, 7, 8, 15, 16, 17, 32, 127, 254, 255];
     let (per_len, extra_long) = if ctx.quick() { (12, 0) } else { (170, 200) };
     for &len in lens {
